@@ -72,6 +72,8 @@ enum St {
     ScopeWait(Vec<usize>),
     UdpRecv(usize, Option<u64>),
     Drain,
+    /// Enabled only when no other thread can run (used by the harness to wait for quiescence).
+    WaitIdle,
     Finished,
 }
 
@@ -223,6 +225,7 @@ impl Inner {
                     || deadline.map(|d| self.clock >= d).unwrap_or(false)
                     || self.socks[*s].queue.iter().any(|d| d.deliver_at <= self.clock)
             }
+            St::WaitIdle => (0..self.threads.len()).all(|j| j == i || self.threads[j].st == St::WaitIdle || !self.enabled(j)),
             St::Drain => self
                 .threads
                 .iter()
@@ -269,6 +272,7 @@ impl Inner {
                     St::ScopeWait(_) => "scope".to_string(),
                     St::UdpRecv(..) => "udp-recv".to_string(),
                     St::Drain => "drain".to_string(),
+                    St::WaitIdle => "wait-idle".to_string(),
                     St::Finished => "finished".to_string(),
                     St::Runnable => "runnable".to_string(),
                     St::Sleep(_) => "sleep".to_string(),
@@ -465,6 +469,16 @@ impl Sched {
     /// Harness-side randomness that is part of the schedule stream (e.g. when to poke).
     pub fn user_below(&self, n: u64) -> u64 {
         self.inner.lock().user_rng.below(n)
+    }
+    /// Yields until no other simulation thread can run (all blocked, asleep or finished).
+    pub fn wait_idle(&self) {
+        let me = Self::me();
+        {
+            let mut g = self.inner.lock();
+            g.threads[me].st = St::WaitIdle;
+            self.reschedule(g, me, false);
+        }
+        self.check_abort(me);
     }
     /// A harness-side scheduling point.
     pub fn harness_yield(&self) {
